@@ -495,6 +495,37 @@ var scratchRoot = func() string {
 
 var runCounter atomic.Int64
 
+// scratchDir makes a fresh directory for one execution's files (a SQLite database, mostly). The name carries the process
+// ID - so that directories left behind by a killed process can be recognised and removed - and a random part chosen by
+// os.MkdirTemp, which never hands out an existing directory: process IDs are reused, and a database left behind by
+// an earlier process must never be taken for this execution's empty one.
+func scratchDir(tag string) (string, error) {
+	runCounter.Add(1)
+	return os.MkdirTemp(scratchRoot, fmt.Sprintf("verifsim-%s-%d-", tag, os.Getpid()))
+}
+
+// sweepScratch removes scratch directories whose owner is gone: those that carry this process's own ID (at start-up they
+// can only be a dead namesake's) and those whose process no longer exists.
+func sweepScratch() {
+	ents, err := os.ReadDir(scratchRoot)
+	if err != nil {
+		return
+	}
+	for _, e := range ents {
+		f := strings.Split(e.Name(), "-")
+		if len(f) < 3 || f[0] != "verifsim" || !e.IsDir() {
+			continue
+		}
+		pid, err := strconv.Atoi(f[len(f)-2])
+		if err != nil || pid <= 0 {
+			continue
+		}
+		if _, err := os.Stat(fmt.Sprintf("/proc/%d", pid)); pid == os.Getpid() || os.IsNotExist(err) {
+			os.RemoveAll(filepath.Join(scratchRoot, e.Name()))
+		}
+	}
+}
+
 func (e *Engine) openStore() error {
 	switch e.plan.Cfg.Store {
 	case "sqlite":
@@ -502,8 +533,8 @@ func (e *Engine) openStore() error {
 		if e.plan.Cfg.DBPath != "" {
 			path = e.plan.Cfg.DBPath
 		} else {
-			e.dir = filepath.Join(scratchRoot, fmt.Sprintf("verifsim-%d-%d", os.Getpid(), runCounter.Add(1)))
-			if err := os.MkdirAll(e.dir, 0o700); err != nil {
+			var err error
+			if e.dir, err = scratchDir("w"); err != nil {
 				return err
 			}
 			path = filepath.Join(e.dir, "w.db")
